@@ -539,6 +539,26 @@ func Run(rc *core.RunCtx) {
 	if framing && !checkFraming() {
 		return
 	}
+	if rc.Property == "C04" && marshalPanic && !disconnected && !denied {
+		// "a panic raised while serializing a value fails only that response with a well-formed
+		// error body": on a stream that has begun, the error must itself be framed as the
+		// transport frames everything else
+		if sse && hdr.Get("Content-Type") == "text/event-stream" {
+			if _, err := parsers.ParseSSE(out, false); err != nil {
+				rc.Fail("serialisation-failure-body", "sse-error-is-not-an-event", "%v\n%s", err, desc())
+				return
+			}
+		}
+		if !sse {
+			if mt, params, err := mime.ParseMediaType(hdr.Get("Content-Type")); err == nil && mt == "multipart/mixed" {
+				closing := "--" + params["boundary"] + "--"
+				if !strings.Contains(string(out), closing) {
+					rc.Fail("serialisation-failure-body", "multipart-error-outside-any-part", "no closing delimiter; the error is written as bare JSON\n%s", desc())
+					return
+				}
+			}
+		}
+	}
 	// the connection is gone: whatever is still parked in a write fails, resolvers return
 	wr.Disconnect()
 	for i := 0; i < 3000; i++ {
